@@ -19,7 +19,7 @@ nodes of the value (vacuous without sets).
 
 The full-strength statement `RoundtripCovers` is FALSE of the code as it exists;
 it is kept as a `def`, with three counterexamples (each the replay of a recorded
-finding) and the strongest partial theorem `roundtrip_covers`.
+finding) and the strongest partial theorem `roundtrip_covers_partial` (side condition `Fits`).
 -/
 import CtyModel.Lemmas.MsgpackKnown
 import CtyModel.Lemmas.MsgpackMarks
@@ -132,14 +132,14 @@ original's type, is unknown exactly where the original is, with a refinement the
 that admits every concrete value the original's admitted (`Weaker`: the prefix is
 cut on a boundary `SafeKnownPrefix` accepts, bounds are kept), and is equal in
 every known part. -/
-theorem roundtrip_covers (E : Ext) (v : Value) (t : Ty) (hfit : Fits E t v = true) (hset : SetsRebuild E v)
+theorem roundtrip_covers_partial (E : Ext) (v : Value) (t : Ty) (hfit : Fits E t v = true) (hset : SetsRebuild E v)
     (hconf : Ty.conformErrs t v.ty = 0) :
     ∃ it v', marshal E v t = .ok it ∧ unmarshal E it t = .ok v' ∧ ApproxV v' v :=
   roundtrip E v t hfit hset hconf
 
 /-- For a wholly known value the result is wholly equal: `RawEq` holds part for part
 (numbers: numerically identical when whole or an exact float64, Equal otherwise). -/
-theorem roundtrip_known (E : Ext) (v : Value) (t : Ty) (hfit : Fits E t v = true) (hset : SetsRebuild E v)
+theorem roundtrip_known_partial (E : Ext) (v : Value) (t : Ty) (hfit : Fits E t v = true) (hset : SetsRebuild E v)
     (hconf : Ty.conformErrs t v.ty = 0) (hk : v.whollyKnown = true) :
     ∃ it v', marshal E v t = .ok it ∧ unmarshal E it t = .ok v' ∧ v'.ty = v.ty ∧ RawEq v.ty v'.v v.v := by
   obtain ⟨it, v', hm, hu, hty, ha⟩ := roundtrip E v t hfit hset hconf
@@ -147,7 +147,7 @@ theorem roundtrip_known (E : Ext) (v : Value) (t : Ty) (hfit : Fits E t v = true
 
 /-- An unknown value comes back unknown, of the same type — the refinement possibly
 approximated, never narrowed or invented. -/
-theorem unknown_type_preserved (E : Ext) (vt t : Ty) (r : Rfn) (hfit : Fits E t ⟨vt, .unk r⟩ = true)
+theorem unknown_type_preserved_partial (E : Ext) (vt t : Ty) (r : Rfn) (hfit : Fits E t ⟨vt, .unk r⟩ = true)
     (hconf : Ty.conformErrs t vt = 0) :
     ∃ it r', marshal E ⟨vt, .unk r⟩ t = .ok it ∧ unmarshal E it t = .ok ⟨vt, .unk r'⟩ ∧ Weaker vt r' r := by
   obtain ⟨it, v', hm, hu, hty, ha⟩ := roundtrip E ⟨vt, .unk r⟩ t hfit
@@ -210,6 +210,24 @@ theorem roundtrip_covers_counterexample_type : ¬ RoundtripCovers := by
   revert this
   decide
 
+/-- FULL statement (false): an unmarked unknown value of a capsule-free type that conforms
+to the constraint comes back as an unknown value of the same type. -/
+def UnknownTypePreserved : Prop :=
+  ∀ (E : Ext) (vt t : Ty) (r : Rfn), t.wf = true → wfValue E ⟨vt, .unk r⟩ = true → Ty.conformErrs t vt = 0 →
+    ∃ it r', marshal E ⟨vt, .unk r⟩ t = .ok it ∧ unmarshal E it t = .ok ⟨vt, .unk r'⟩
+
+/-- an unknown list of strings under the constraint list(dynamic) comes back as an unknown
+list(dynamic) (same finding as (3)) -/
+theorem unknown_type_preserved_counterexample : ¬ UnknownTypePreserved := by
+  intro h
+  have := rtCheck_of (P := fun v' => v'.ty = .list .string)
+    (by
+      obtain ⟨it, r', hm, hu⟩ := h E0 (.list .string) (.list .dyn) .unref (by decide) (by decide) (by decide)
+      exact ⟨it, _, hm, hu, rfl⟩)
+    (chk := fun v' => v'.ty.equals (.list .string)) (by intro v' hty; rw [hty]; decide)
+  revert this
+  decide
+
 /-! ## Non-vacuity: the hypotheses are satisfiable by non-trivial values -/
 
 /-- an object holding a list with a refined unknown number, a tuple under a placeholder,
@@ -234,6 +252,11 @@ def sampleConstraint : Ty :=
 example : Fits E0 sampleConstraint sample = true ∧ Ty.conformErrs sampleConstraint sampleTy = 0 ∧
     wfValue E0 sample = true ∧ sample.whollyKnown = false := by decide
 example : SetsRebuild E0 sample := noSets rfl
+-- a value with a set: the set law holds of `E0` (whose `setOf` keeps the members as they come)
+example : Fits E0 (.set .number) ⟨.set .number, .sset [1, 2] [.n (.fin false 1 0 64), .unk (.num .f none none)]⟩ = true ∧
+    SetsRebuild E0 ⟨.set .number, .sset [1, 2] [.n (.fin false 1 0 64), .unk (.num .f none none)]⟩ :=
+  ⟨by decide, fun _ _ ps' h => ⟨[], ps', rfl, h⟩⟩
+example : (Num.fin false 5 0 512).toInt? = some 5 ∧ minI64 ≤ (5 : Int) ∧ (5 : Int) ≤ maxI64 := by decide
 example : (⟨.list .string, .seq [.s "a", .marked ["m"] (.s "b")]⟩ : Value).containsMarked = true := by decide
 example : Fits E0 .dyn ⟨.list .number, .seq [.n (.fin false 1 63 64), .n (.fin false 1 (-1) 512)]⟩ = true := by decide
 example : numFits (.fin false 1 63 64) = true ∧ numFits (.fin false 3 (-1) 20) = true ∧
